@@ -18,7 +18,7 @@ def run_case(c):
         bhe = MultipleUTube(c["m"], fluid, b, pipe, grout, soil, config=DoubleUTubeConnType.PARALLEL if kind == "dp" else DoubleUTubeConnType.SERIES)
         vf, vp, rc, rp = bhe.u_tube_volumes()
     elif kind == "cx":
-        pipe = Pipe((0, 0), [c["r_ii"], c["r_io"]], [c["r_oi"], c["r_oo"]], 0, 1e-6, [c["kp"], c["kp"]], 1.54e6)
+        pipe = Pipe((0, 0), [c["r_ii"], c["r_io"]], [c["r_oi"], c["r_oo"]], 0, 1e-6, [c.get("kp_in", c["kp"]), c.get("kp_out", c["kp"])], 1.54e6)
         bhe = CoaxialPipe(c["m"], fluid, b, pipe, grout, soil)
         vf, vp, rc, rp = bhe.concentric_tube_volumes()
     else:
